@@ -41,6 +41,14 @@ Theorem C17_exhaust : forall m k v rest,
   run_job (Some m) v (failing k ++ rest) = (Failed, m, N.to_nat (m - v + 1)).
 Proof. exact run_job_exhaust. Qed.
 
+(* ... and NOT only for an isolated job: in ANY history of rollbacks -- other jobs, larger rollback sets (the job rolled back
+   as a producer of someone else's failure counts too), any recovering flags of the other requests, any interleaving -- a job
+   that is asked to roll back `limit` times (as a request that is not recovering) makes one of the calls raise: the
+   workflow fails within the bound. *)
+Theorem C17_exhaust_any_rollback_sets : forall m (h : list rollback) j,
+  1 <= m -> m <= N.of_nat (asked_in j h) -> raised_in (Some m) [] h = true.
+Proof. exact keeps_failing_raises. Qed.
+
 (* For an isolated job: fewer failures than the limit allows => it completes after k+1 executions (with or without a limit) *)
 Theorem C17_completes_below_limit : forall lim k v rest,
   (match lim with Some m => v + N.of_nat k <= m | None => True end) ->
@@ -83,6 +91,10 @@ Proof.
   destruct (String.eqb "/b/0" j); [|discriminate].
   injection H as <-. split; discriminate.
 Qed.
+Example C17_exhaust_any_example :
+  let h := [[("/a/0", false); ("/b/0", false)]; [("/c/0", false); ("/a/0", false)]; [("/a/0", true)]; [("/d/0", false); ("/a/0", false)]] in
+  asked_in "/a/0" h = 3%nat /\ raised_in (Some 3) [] h = true /\ raised_in (Some 4) [] h = false.
+Proof. vm_compute. repeat split; reflexivity. Qed.
 Example C17_chain_example :
   run_chain (Some 2) [1%nat; 0%nat; 2%nat; 0%nat] = (Failed, [(2, 2%nat); (1, 1%nat); (2, 2%nat)]).
 Proof. vm_compute. reflexivity. Qed.
@@ -93,6 +105,7 @@ Print Assumptions C17_raise_iff_exhausted.
 Print Assumptions C17_raise_only_at_limit.
 Print Assumptions C17_bound.
 Print Assumptions C17_exhaust.
+Print Assumptions C17_exhaust_any_rollback_sets.
 Print Assumptions C17_completes_below_limit.
 Print Assumptions C17_dummy.
 Print Assumptions C17_dummy_single_execution.
